@@ -362,3 +362,16 @@ def main_wrapper(fn):
     finally:
         cleanup()
     sys.exit(rc)
+
+
+def replay_recorded(path, module, strip=lambda c: c):
+    """--replay: feed the recorded case of a replay file to the trace specification again and
+    print TLC's verdict (the recorded inputs, parameters and call history are in the file, so
+    the case can also be re-executed by hand against a modified tree)."""
+    with open(path) as fh:
+        rp = json.load(fh)
+    case = rp["case"]
+    verdicts, _ = validate_cases(module, [strip(case)], chunks=1)
+    rec = verdicts[case["id"]]
+    print("replay %s: property=%s recorded clause=%s verdict now=%s ctx=%s" % (path, rp["property"], rp["clause"], rec["v"], rec.get("ctx")))
+    return 0 if rec["v"][0] in ("ok", "inconclusive") else 1
